@@ -14,7 +14,7 @@ RULE = ('(a) IR-level store/load histories through eval_instr/eval_expr: stores 
         'machine register base (init_esp), then a load of width 8/16/32 at offset 0..7: exhaustive for 1 store + 1 load (3 bases x 576), exhaustive for 2 stores '
         '+ 1 load in the thorough tier (a deterministic eighth in quick), seeded random for 3..8 stores with interleaved loads; stored values are fresh symbols, constants (2 stores + 1 load again with constant values) and contiguous slices of one identifier stored at adjacent addresses followed by a wide load and a second load; (b) ISA-level straight-line '
         'sequences of length 1..12 over mov/add/sub/xor/and/or/inc/dec/neg/not/lea/push/pop/xchg/xadd/shl/shr/movzx with register, immediate and memory '
-        'operands whose addresses fall in an 8-byte window, assembled by GNU as, emulated with emul_lines on x86_machine(); (b2) accesses through a register reloaded from memory whose source cell is then overwritten, compared with the twin sequence through the initial register; registers holding boundary constants x shifts / rotates / ALU / mul / bit operations (concrete evaluation paths); (c) rep movs/stos/lods and '
+        'operands whose addresses fall in an 8-byte window, assembled by GNU as, emulated with emul_lines on x86_machine(); (b2) accesses through a register reloaded from memory whose source cell is then overwritten, compared with the twin sequence through the initial register; values containing conditionals (cmovcc, setcc, sign extensions, lahf) cut and re-composed by narrower/wider accesses in registers and through memory; registers holding boundary constants x shifts / rotates / ALU / mul / bit operations (concrete evaluation paths); (c) rep movs/stos/lods and '
         'repe/repne cmps/scas with concrete ecx in {0,1,2,5} and both directions. After each history every register and every (offset 0..11, width 8/16/32) '
         'read-back is compared on 4 valuations. A case = the history; non-trivial = it contains a read overlapping an earlier write of another width or offset '
         '(a), or a memory access / a rep prefix (b, c).')
@@ -537,6 +537,10 @@ def isa_case(sh, lines, tag, origin, rep=False):
             # mechanisms themselves are keyed precisely by the IR-level histories of part (a). Only sequences that
             # contain one of the access relations known to be mishandled are attributed to it.
             key = 'isa-alias/state-differs-after-partially-overlapping-accesses'
+        elif origin == 'isa-cond' and has_known_bad_overlap(small, (v.get('witness') or {}).get('readback')):
+            key = 'isa-alias/state-differs-after-partially-overlapping-accesses'
+        elif origin == 'isa-cond':
+            key = '%s/%s/%s' % (origin, kind, '+'.join(sorted(set(re_suffix(l.split()[0]).rstrip('elsbagn') if l.split()[0].startswith(('cmov', 'set')) else re_suffix(l.split()[0]) for l in small))))
         elif origin == 'isa-const':
             key = '%s/%s/%s' % (origin, kind, re_suffix(lines[-1].split()[0]))
         else:
@@ -580,6 +584,35 @@ def const_cases():
     return out
 
 
+def cond_cases():
+    """Values that contain conditionals (cmovcc results, setcc bytes, sign extensions) and are then cut and re-composed by
+    narrower or wider accesses, in registers and through memory; sub-register flag writes into registers holding constants."""
+    out = []
+    for cc in ('e', 'ne', 's', 'ns', 'l', 'ge', 'b', 'a'):
+        cmp_ = 'cmpl %ebx, %eax'
+        out.append([cmp_, 'cmov%s %%ecx, %%edx' % cc, 'movzbl %dl, %esi'])
+        out.append([cmp_, 'cmov%s %%ecx, %%edx' % cc, 'movzbl %dh, %esi'])
+        out.append([cmp_, 'cmov%s %%ecx, %%edx' % cc, 'movw %dx, %di'])
+        out.append([cmp_, 'cmov%s %%ecx, %%edx' % cc, 'movb %dl, %al', 'movb %dh, %ah'])
+        out.append([cmp_, 'cmov%s %%ecx, %%edx' % cc, 'movl %edx, 4(%esi)', 'movb %al, 5(%esi)', 'movb %dh, 5(%esi)', 'movl 4(%esi), %edi'])
+        out.append([cmp_, 'cmov%s %%ecx, %%edx' % cc, 'movl %edx, (%esi)', 'movzwl (%esi), %edi', 'movzbl 3(%esi), %ebp'])
+        out.append([cmp_, 'cmov%sw %%cx, %%dx' % cc, 'movl %edx, %edi'])
+        out.append(['movl $0x12345678, %edx', cmp_, 'set%s %%dh' % cc])
+        out.append(['movl $0x12345678, %edx', cmp_, 'set%s %%dl' % cc, 'movzwl %dx, %edi'])
+        out.append(['movl $0x12345678, %edx', cmp_, 'set%s %%dh' % cc, 'movl %edx, (%esi)', 'movzbl 1(%esi), %edi'])
+        out.append([cmp_, 'set%s %%cl' % cc, 'movzbl %cl, %ecx', 'leal 4(%ecx,%ecx,2), %edx'])
+        out.append([cmp_, 'set%s 2(%%esi)' % cc, 'movl (%esi), %edx'])
+    out.append(['movsbl %al, %edx', 'movb %dh, %cl'])
+    out.append(['movsbl %al, %edx', 'movzbl %dh, %ecx', 'movw %dx, 2(%esi)', 'movl (%esi), %edi'])
+    out.append(['movswl %ax, %edx', 'movl %edx, (%esi)', 'movb 3(%esi), %cl'])
+    out.append(['movl $0x12345678, %eax', 'cmpl %ebx, %ecx', 'lahf'])
+    out.append(['movl $0x12345678, %eax', 'cmpl %ebx, %ecx', 'lahf', 'movzwl %ax, %edx'])
+    out.append(['cmpl %ebx, %ecx', 'lahf', 'movb %ah, (%esi)', 'movzbl (%esi), %edx'])
+    out.append(['cltd', 'movb %dh, %cl'])
+    out.append(['sarl $31, %edx', 'movzbl %dh, %ecx'])
+    return out
+
+
 REP_CASES = []
 for _cnt in (0, 1, 2, 5):
     for _dir in ('cld', 'std'):
@@ -614,6 +647,8 @@ def shards(tier, seed):
         out.append(('ptr', i))
     for i in range(0, len(const_cases()), 24):
         out.append(('constregs', i))
+    for i in range(0, len(cond_cases()), 12):
+        out.append(('condvals', i))
     return out
 
 
@@ -684,6 +719,9 @@ def run_shard(shard, tier, seed):
     elif kind == 'ptr':
         for j, (lines, twin) in enumerate(ptr_cases()[shard[1]:shard[1] + 16]):
             ptr_case(sh, lines, twin, ('ptr', shard[1] + j))
+    elif kind == 'condvals':
+        for j, lines in enumerate(cond_cases()[shard[1]:shard[1] + 12]):
+            isa_case(sh, lines, ('cond', shard[1] + j), 'isa-cond')
     elif kind == 'constregs':
         for j, lines in enumerate(const_cases()[shard[1]:shard[1] + 24]):
             isa_case(sh, lines, ('const', shard[1] + j), 'isa-const')
